@@ -48,8 +48,11 @@ RECURSIVE CutComment(_, _)
 \* everything before the first blank that is followed by '#'
 CutComment(s, k) == IF k >= Len(s) THEN s ELSE IF IsWs(s[k]) /\ s[k + 1] = HASH THEN SubSeq(s, 1, k - 1) ELSE CutComment(s, k + 1)
 RECURSIVE TagItems(_, _, _)
+\* A tag is '@' and the text up to the next '@', minus TRAILING blanks: the name stands in the source exactly as reported
+\* (C04 read-back).  Blanks directly after the '@' therefore make a tag "with whitespace".  The implementation trims both
+\* sides and accepts '@ x' as tag '@x' (known finding C04/tag-blank-after-at; Java, Go, JavaScript and .NET reject it).
 TagItems(items, k, col) == IF k > Len(items) THEN <<>> ELSE
-     << [col |-> col, text |-> <<AT>> \o Trim(items[k])] >> \o TagItems(items, k + 1, col + Len(items[k]) + 1)
+     << [col |-> col, text |-> <<AT>> \o RTrim(items[k])] >> \o TagItems(items, k + 1, col + Len(items[k]) + 1)
 TagLine(l) == LET t == LTrim(l) IN
    IF t = <<>> \/ t[1] # AT THEN NoTok ELSE
    LET u == Trim(CutComment(Trim(t), 1))
